@@ -395,6 +395,14 @@ def inSpec (x : Option Int) (ys : List (Option Int)) : Option Bool :=
   | none => none
   | some a => if ys.contains (some a) then some true else if ys.contains none then none else some false
 
+/-- n-ary three-valued conjunction, stated without a fold -/
+def all3 (xs : List (Option Bool)) : Option Bool :=
+  if some false ∈ xs then some false else if none ∈ xs then none else some true
+
+/-- n-ary three-valued disjunction, stated without a fold -/
+def any3 (xs : List (Option Bool)) : Option Bool :=
+  if some true ∈ xs then some true else if none ∈ xs then none else some false
+
 def evalN (r : Row) : NumE → Option Int
   | .col c => r c
   | .const i => some i
